@@ -127,7 +127,8 @@ CLAIMED["C11"] = dict(
          "exponentials), vel is the body velocity (D M = M hat(vel)), acc and jer its successive u-derivatives, for symbolic u and control differences; "
          "cspline_eval_dg_dvs: dg, dvel, dacc are the right-Jacobians w.r.t. every control difference (u fixed to sample values for non-commutative groups). "
          "cspline_eval_gs (real pairwise view, rule R5) is the identical operation DAG of g_0 * cspline_eval_vs(g_i (-) g_(i-1)) with identical vel/acc. "
-         "Bernstein and B-spline bases; (K,G) configurations sampled. cspline_eval_dg_dgs (chain rule to control points) is not under contract.",
+         "cspline_eval_dg_dgs equals the chain rule through the differences built from the public dr_expinv/dl_expinv/Ad/dg_dvs (K = 1 on SE2; K = 3, 6 on vector groups). "
+         "Bernstein and B-spline bases; (K,G) configurations sampled. Undecided: dg_dgs for K >= 2 on non-commutative groups.",
     note="A1; A2; A6; A7 configurations; R1/R2/R5 rewrite rules; C20 ties the basis constants to their definitions; literal-rounding tolerance 1e-12 on coefficients "
          "where the compiler folds products of decimal literals.",
     tech=IRSX + "symbolic differentiation + exact normal form", ref="4 C11")
@@ -165,9 +166,10 @@ CLAIMED["C14"] = dict(
          "description is one of the six candidate words (identical operation DAGs of that candidate's lengths) and the path condition implies that its length R a1 + d2 + R a3 "
          "is <= the length of each of the six candidates (z3, real arithmetic, +inf for infeasible words); dubins_curve<K>: t_max equals that length and the body velocity "
          "inside every segment is (1, 0, +-1/R) or (1, 0, 0) (unit speed, curvature <= 1/R). fit_bspline: from the expressions extracted from fit_impl.hpp and the C13 "
-         "contracts, t_min <= t_i <= t_max for all dt > 0. That each word reaches the target (tangent-circle geometry) and global minimality are checked only by a bounded "
-         "native stand-in against an independent brute-force evaluation. Found and repaired: spurious full turn for half-turn targets. fit_spline, fit_spline_1d and "
-         "reparameterize_spline are NOT decided.",
+         "contracts, t_min <= t_i <= t_max for all dt > 0. fit_spline's interpolation step (block extracted verbatim): exp(v_1)...exp(v_K) = g^-1 g_next for K = 3 on SE2 and "
+         "K = 5 on vectors (bounded for K = 5, 6 on SE2/SO3). fit_spline_1d: bounded stand-in for the linear constraints. That each word reaches the target (tangent-circle geometry) and global minimality are checked only by a bounded "
+         "native stand-in against an independent brute-force evaluation. Found and repaired: spurious full turn for half-turn targets; un-pivoted KKT solve in fit_spline_1d. The rest of fit_spline "
+         "and reparameterize_spline are NOT decided.",
     note="A1; A2; A5 (arc length = radius x angle); A6 incl. z3 and must-fire extraction rules; A7 targets/radii sampled, paths discovered concolically; C12/C13 contracts used; "
          "std::ranges::minmax assumed; sparse linear solves of fit_spline(_1d) and the LP passes of reparameterize_spline are outside the executor's reach.",
     tech=IRSX + "structural identity + z3 implication from the compiled comparison chain (Dubins word selection), exact normal form (segment velocities), z3 over "
